@@ -77,6 +77,9 @@ def universe():
           {'$df': [IDX, ['a', 'b'], [[{'$inf': 1}, 2.0], [3.0, {'$inf': -1}], [5.0, 6.0]]]}]
     # scalars whose == raises inside numpy (out-of-range dates, ints beyond 64 bits against numpy scalars): eq is still a boolean
     u += [{'$np': ['datetime64[D]', '9999-12-31']}, {'$np': ['datetime64[D]', '1000-01-01']}, 2 ** 70, -2 ** 70, [{'$np': ['datetime64[D]', '9999-12-31']}], {'a': 2 ** 70}, {'$np': ['datetime64[ns]', '2020-01-01T00:00:00']}]
+    # a missing timestamp / duration is a NaN of its kind: a value holding one equals its structural copy (fresh NaT objects), at any depth
+    NAT, NATD, NATT = {'$np': ['datetime64[ns]', 'NaT']}, {'$np': ['datetime64[D]', 'NaT']}, {'$np': ['timedelta64[s]', 'NaT']}
+    u += [NAT, NATD, NATT, [NAT], [NATD, 1], T(NATT), {'a': NAT}, {'a': [NAT, {'$np': ['datetime64[ns]', '2020-01-01T12:00:00']}]}]
     return u
 
 
@@ -174,8 +177,8 @@ def plain_shape(x):
 
 def _sc_nan(v):
     if isinstance(v, (np.datetime64, np.timedelta64)):
-        return 'NaT' if np.isnat(v) else False
-    return isinstance(v, (float, np.floating)) and v != v
+        return 'NaT:' + type(v).__name__ if np.isnat(v) else ''       # a missing date is not a missing duration
+    return 'NaN' if isinstance(v, (float, np.floating)) and bool(v != v) else ''
 
 
 def _cells(values):
